@@ -116,7 +116,35 @@ func (v *VerifState) Identity() map[string]string {
 	out["adminAuthorize"] = fmt.Sprintf("%p", s.adminAuthorize)
 	out["trendSignals"] = fmt.Sprintf("%v", s.trendSignals)
 	out["adaptiveBackpressure"] = fmt.Sprintf("%v", s.adaptiveBackpressure)
+	if c := s.adaptiveController; c != nil {
+		cfg, tr, _ := c.snapshot()
+		out["adaptiveController.cfg"] = fmt.Sprintf("%+v", cfg)
+		out["adaptiveController.trendCfg"] = fmt.Sprintf("%+v", tr)
+	}
 	return out
+}
+
+// EffectiveAdmissionConfig renders the settings that decide ingress admission and the trend
+// analysis right now: what the admission controller evaluates with, and what the state hands to
+// the admin trend endpoints.
+func (v *VerifState) EffectiveAdmissionConfig() []string {
+	s := v.s
+	s.mu.RLock()
+	c := s.adaptiveController
+	st := fmt.Sprintf("state.adaptiveBackpressure=%+v", s.adaptiveBackpressure)
+	s.mu.RUnlock()
+	out := []string{st, fmt.Sprintf("state.trendSignalsConfig()=%+v", s.trendSignalsConfig())}
+	if c != nil {
+		cfg, tr, _ := c.snapshot()
+		out = append(out, fmt.Sprintf("controller.cfg=%+v", cfg), fmt.Sprintf("controller.trendCfg=%+v", tr))
+	}
+	return out
+}
+
+// AdmissionDecision is allowIngressEnqueue (the AllowEnqueueFor callback) with its reason.
+func (v *VerifState) AdmissionDecision(route string) string {
+	a, c, r := v.s.allowIngressEnqueue(route)
+	return fmt.Sprintf("allowed=%v status=%d reason=%s", a, c, r)
 }
 
 func sliceData(r []config.CompiledRoute) *config.CompiledRoute {
